@@ -17,11 +17,12 @@ Fixpoint lookupB {V} (k : byte) (t : list (byte * V)) : option V :=
   end.
 
 (* str.translate(table): unmapped code points are kept *)
-Definition trans1 (c : byte) : byte :=
-  match lookupN (Byte.to_N c) COMPLEMENT_TRANS with
+Definition trans_with (t : list (N * N)) (c : byte) : byte :=
+  match lookupN (Byte.to_N c) t with
   | Some n => match Byte.of_N n with Some b => b | None => c end
   | None => c
   end.
+Definition trans1 (c : byte) : byte := trans_with COMPLEMENT_TRANS c.
 Definition py_translate (s : str) : str := map trans1 s.
 (* str.replace for single characters *)
 Definition replace1 (a b : byte) (s : str) : str := map (fun c => if byte_eqb c a then b else c) s.
